@@ -46,7 +46,7 @@ Body(k, poisoned) ==
               EMatch(hit, <<Arm(MTrue, ELeft(V("acc"))), Arm(MFalse, ERight(ECall(CFn("mix"), <<iw, V("acc")>>)))>>)))
 
 \* a second loop shape: the exit value is computed from ctx, the accumulator is a pair (C is passed unchanged)
-Widths == IF Thorough THEN {1, 2, 4, 8, 16} ELSE {1, 2, 4, 8}
+Widths == {1, 2, 4, 8, 16}          \* width 16: early exits inside TLC, the full 65 536 iterations through the lemma points
 Exits(k) == IF k <= 4 THEN 0..(Pow2(k) - 1)
             ELSE IF k = 8 THEN {0, 1, 2, 3, 127, 128, 129, 254, 255}
             ELSE {0, 1, 255, 256}       \* width 16: only early exits are evaluated inside TLC
